@@ -40,6 +40,8 @@ ALPHABETS = {
     'scrambled': 'qwertyuiopasdfghjklzxcvbnm',      # no two neighbours consecutive: longest ite form
     'dups': 'abracadabra',                          # callers pass it through uniqstring -> 'abrcd'
     'wxyz2': 'wWxXyYzZ',                            # a letter in both cases: case folding creates duplicates
+    'one': 'a',                                     # one letter: without spaces only the zeroth name exists
+    'oneboth': 'aA',                                # one letter after case folding
 }
 # An alphabet name 'X^u' / 'X^l' means: the character set that the REAL mulgrid.rectangular
 # hands to the name generators when called with chars = ALPHABETS[X], case = 'u' / 'l'
@@ -167,6 +169,27 @@ def model_codes(m, s):
 def justfn_of(M, just):
     return M.str.rjust if just == 'r' else M.str.ljust
 
+class limited_recursion(object):
+    """Cap the Python recursion depth a little above the current one, so that
+    a non-terminating recursion in the code under test surfaces as its
+    RecursionError after a few hundred frames instead of 20000 (the engine
+    raises the limit for deep but finite recursions)."""
+    def __init__(self, extra=500): self.extra = extra
+    def __enter__(self):
+        import sys
+        self.old = sys.getrecursionlimit()
+        depth, f = 0, sys._getframe()
+        while f is not None: depth += 1; f = f.f_back
+        sys.setrecursionlimit(min(self.old, depth + self.extra))
+    def __exit__(self, *a):
+        import sys
+        sys.setrecursionlimit(self.old)
+        return False
+
+
+ONE_LETTER_KEY = 'one-letter-set-no-spaces/explicit-naming-error'
+
+
 def rectangular_passes_on(M, chars, case, **kw):
     """Run the real mulgrid.rectangular and return (grid or exception, the
     `chars` it passes to node_name_from_number).  The generator method is
@@ -179,8 +202,9 @@ def rectangular_passes_on(M, chars, case, **kw):
     M.mulgrid.node_name_from_number = spy
     try:
         try:
-            g = M.mulgrid().rectangular(kw.pop('xblocks', [1.0]), kw.pop('yblocks', [1.0]), kw.pop('zblocks', [1.0]),
-                                        chars=chars, case=case, **kw)
+            with limited_recursion():
+                g = M.mulgrid().rectangular(kw.pop('xblocks', [1.0]), kw.pop('yblocks', [1.0]), kw.pop('zblocks', [1.0]),
+                                            chars=chars, case=case, **kw)
         except Exception as ex:
             g = ex
     finally:
@@ -283,14 +307,16 @@ def task_gen(kind, conv, just, alpha, spaces, N):
         out = []
         for tag, x in (('i', i), ('j', j)):
             try:
-                nm = f(x, justfn_of(M, just), chars, spaces)
+                with limited_recursion():
+                    nm = f(x, justfn_of(M, just), chars, spaces)
             except M.NamingConventionError:
                 ob.prove(c, x.e > cap, 'error-only-when-exhausted', rp('error-only-when-exhausted'),
                          'NamingConventionError raised for a number that has a name of the convention length')
                 out.append(None)
                 continue
             except Exception as ex:
-                ob.fail(c, 'unexpected-exception', rp('unexpected-exception'), 'raised %s: %s' % (type(ex).__name__, ex))
+                lab = ONE_LETTER_KEY if (len(want_chars) < 2 and not spaces and not digits_kind(kind, conv)) else 'unexpected-exception'
+                ob.fail(c, lab, rp(lab), 'raised %s instead of a name or NamingConventionError: %s' % (type(ex).__name__, str(ex)[:120]))
                 return 'exception'
             if not isinstance(nm, (str, SStr)):
                 ob.fail(c, 'not-a-string', rp('length'), 'result is not a string'); return 'bad'
@@ -392,9 +418,8 @@ def task_rectangular(m, case, spaces, conv, just, nx):
             if case == 'l': return z3.If(z3.And(e >= 65, e <= 90), e + 32, e)
             return e
         fc = [fold(x.code) for x in s.cells]
-        if not spaces:
-            # a one-letter set without spaces has no names at all (and int_to_chars does not terminate on it, see notes)
-            c.add(z3.Or(*[a != b for a, b in itertools.combinations(fc, 2)]))
+        # (no assumption on the number of different letters: a one-letter set without spaces has no
+        #  names beyond the zeroth and must give an explicit NamingConventionError - obligation below)
         rp = lambda mdl: dict(cfg, text=model_text(mdl, s))
         g, passed = rectangular_passes_on(M, s, case, xblocks=[1.0] * nx, zblocks=[1.0, 1.0], convention=conv, atmos_type=1, justify=just, spaces=spaces)
         nnodes = 2 * (nx + 1)
@@ -411,8 +436,13 @@ def task_rectangular(m, case, spaces, conv, just, nx):
                      'NamingConventionError although the grid fits the name space of the character set')
             return 'exhausted'
         if isinstance(g, Exception):
-            ob.fail(c, 'unexpected-exception', rp, 'rectangular raised %s: %s' % (type(g).__name__, g))
+            one = passed is not None and len(cells_of(passed)) < 2 and not spaces
+            ob.fail(c, ONE_LETTER_KEY if one else 'unexpected-exception', rp,
+                    'rectangular raised %s instead of NamingConventionError: %s' % (type(g).__name__, str(g)[:120]))
             return 'exception'
+        if passed is not None and len(cells_of(passed)) < 2 and not spaces:
+            ob.fail(c, ONE_LETTER_KEY, rp, 'a grid was built from a one-letter character set without spaces (no names exist)')
+            return 'one-letter-grid'
         nodes = [x.name for x in g.nodelist]; cols = [x.name for x in g.columnlist]; lays = [x.name for x in g.layerlist]
         ob.prove(c, len(nodes) == nnodes and len(cols) == nx and len(lays) == 3, 'nothing-dropped', rp,
                  'rectangular made %d nodes, %d columns, %d layers instead of %d, %d, 3' % (len(nodes), len(cols), len(lays), nnodes, nx))
@@ -872,6 +902,11 @@ def gen_configs(tier):
     for kind, conv, just, alpha, spaces in [('column', 0, 'r', 'letters52^u', True), ('node', 0, 'l', 'letters52^l', False),
                                             ('column', 3, 'r', 'wxyz2^u', True), ('node', 3, 'r', 'wxyz2^l', False)]:
         out.append((kind, conv, just, alpha, spaces))
+    # one-letter sets without spaces: only number 0 has a name, explicit naming error otherwise
+    # (one letter WITH spaces is left to the rectangular tasks: number i is the letter repeated i times, built with recursion depth i)
+    for kind, conv, just, alpha, spaces in [('column', 0, 'r', 'one', False), ('node', 0, 'r', 'oneboth^l', False), ('column', 3, 'l', 'oneboth^u', False),
+                                            ('layer', 1, 'r', 'one', False), ('layer', 2, 'l', 'one', False), ('layer', 3, 'r', 'one', False)]:
+        out.append((kind, conv, just, alpha, spaces))
     if tier == 'thorough':
         for kind in ('column', 'node'):
             for conv in (0, 3):
@@ -980,8 +1015,7 @@ def run(tier, seed, rep):
         'alphabet passed to the generators has distinct characters: decided for rectangular() on symbolic sets (rectangular/*/charset-distinct) and, for the '
         "'X^u'/'X^l' alphabets, taken from an execution of the real rectangular(); for the plain catalogue alphabets the harness applies the real uniqstring itself "
         '(add_layers and from_gmsh call uniqstring directly before use)',
-        'rectangular with spaces not allowed: the character set has at least two different letters after case folding (a one-letter set has no names; '
-        'int_to_chars(i, chars of one letter, spaces=False) does not terminate - RecursionError - reported, see notes)',
+
         'chars[k %% n] on a concrete alphabet and a symbolic index is the exact piecewise-linear/ite term over the alphabet (vx.strs.IxStr); '
         "str(i) / '%%2d' %% i of a non-negative symbolic integer are its decimal digits (fork per digit count); both validated against the real functions on "
         '%d boundary numbers at the start of every run' % nval,
